@@ -134,6 +134,8 @@ def mk_query_obstacles():
                 local, ori = ["rect", sp[1], sp[2], 0.0, 0.0, 0.0], sp[5]
             elif sp[0] == "circle":
                 local, ori = ["circle", sp[1], 0.0, 0.0], 0.0
+            elif sp[0] == "group":
+                local, ori = sp, 0.0       # orientation 0: placement is a pure translation of every member
             else:
                 continue   # polygon shapes rotate about their centroid: placement is C04's business
             out.append((oid, {"role": "static", "id": oid, "type": "PARKED_VEHICLE", "shape": local, "initial_state": spec.init_state(x=ax, y=ay, o=ori)},
@@ -196,6 +198,8 @@ def check_network(ids, route_real, res, tmpdir):
                               f"{case} lanelet {l.lanelet_id} point {p}: got {bool(f)}", dict(case, point=list(p)))
     # ---- by shape
     for sp0 in netgeo.QUERY_SHAPES:
+        if sp0[0] == "group":
+            continue    # find_lanelet_by_shape states Circle / Polygon / Rectangle as its precondition (assert); groups are queried as obstacles below
         for ax, ay in netgeo.ANCHORS:
             sp = netgeo.shape_at(sp0, ax, ay)
             hit, und = hit_sets(sp, ids)
